@@ -6,6 +6,10 @@ A *spec* is {'elems': [E0, E1, ...]} with E = {'type': str, 'name': str, 'uuid':
 (one item for scalars).  Items: ELEMENT -> int (index) | None (NULL) | ['stub', hex32]; INTEGER -> int;
 FLOAT/TIME -> float; BOOL -> bool; STRING -> str; BINARY -> hex str; COLOR -> [r,g,b,a]; VEC2/VEC3/VEC4/ANGLE/
 QUATERNION -> list of floats; MATRIX -> 9 floats (3x3 row major).
+An element may carry 'ops': an API history applied to the built Element after its attributes were assigned, in order:
+['clear'] | ['del', name] | ['pop', name] | ['popitem'] | ['setname', text] (the Element.name setter) |
+['set', name, TYPE, is_array, values] (elem[name] = Attribute) | ['setdefault', name, TYPE, is_array, values].
+Names are spelled in any case (the mapping API casefolds them); the 'name' member can be removed and re-added.
 """
 from __future__ import annotations
 
@@ -78,7 +82,81 @@ def build(spec: dict):
             vt = dmx.ValueType[typ]
             conv = [_mk_value(typ, v, elems, stubs) for v in vals]
             obj[name] = dmx.Attribute(name, vt, conv if is_arr else conv[0])
+    for e, obj in zip(spec['elems'], elems):
+        for op in e.get('ops', ()):
+            apply_op(obj, op, elems, stubs)
     return elems
+
+
+def apply_op(obj, op: list, elems: list, stubs: dict) -> None:
+    """One step of an API history on a real Element (see the module docstring for the op forms).  Removing a key that
+    is not there is a no-op here and in [effective] (the shrinker may have dropped the step that added it)."""
+    from srctools import dmx
+    kind = op[0]
+    if kind == 'clear':
+        obj.clear()
+    elif kind == 'del':
+        try:
+            del obj[op[1]]
+        except KeyError:
+            pass
+    elif kind == 'pop':
+        obj.pop(op[1], '')
+    elif kind == 'popitem':
+        try:
+            obj.popitem()
+        except KeyError:
+            pass
+    elif kind == 'setname':
+        obj.name = op[1]
+    elif kind in ('set', 'setdefault'):
+        _, name, typ, is_arr, vals = op
+        conv = [_mk_value(typ, v, elems, stubs) for v in vals]
+        a = dmx.Attribute(name, dmx.ValueType[typ], conv if is_arr else conv[0])
+        if kind == 'set':
+            obj[name] = a
+        else:
+            obj.setdefault(name, a)
+    else:
+        raise ValueError(op)
+
+
+def effective(e: dict) -> tuple[str, bool, list]:
+    """What an element of a spec looks like after its attribute list and its API history: (name, has a 'name' member,
+    all members in dict order as [key, [name, TYPE, is_array, values]]) — an independent simulation of the ordered,
+    casefold-keyed `_members` dict (assignment to an existing key keeps its position; Element.name reads the 'name'
+    member or '' when it is missing, the setter appends it when missing)."""
+    mem: dict = {'name': ['name', 'STRING', False, [e['name']]]}
+    for a in e['attrs']:
+        mem[a[0].casefold()] = list(a)
+    for op in e.get('ops', ()):
+        kind = op[0]
+        if kind == 'clear':
+            mem.clear()
+        elif kind in ('del', 'pop'):
+            mem.pop(op[1].casefold(), None)
+        elif kind == 'popitem':
+            if mem:
+                mem.popitem()
+        elif kind == 'setname':
+            if 'name' in mem:
+                mem['name'] = [mem['name'][0], 'STRING', False, [op[1]]]
+            else:
+                mem['name'] = ['name', 'STRING', False, [op[1]]]
+        elif kind == 'set':
+            mem[op[1].casefold()] = list(op[1:])
+        elif kind == 'setdefault':
+            mem.setdefault(op[1].casefold(), list(op[1:]))
+        else:
+            raise ValueError(op)
+    nm = mem.get('name')
+    name = '' if nm is None else str(nm[3][0])
+    return name, nm is not None, [[k, v] for k, v in mem.items()]
+
+
+def eff_attrs(e: dict) -> list:
+    """The attribute records of an element (every member except the one keyed 'name')."""
+    return [v for k, v in effective(e)[2] if k != 'name']
 
 
 def _canon_value(typ: str, v: Any, index_of) -> Any:
@@ -137,13 +215,23 @@ def canon(root) -> dict:
         el = order[i]
         i += 1
         attrs = []
+        keys = []                       # the dict key each attribute record is stored under (what elem[name] looks up)
+        members: list | None = []       # the dict itself, the 'name' member included: [key, [name, TYPE, is_array, values]]
         for key, attr in el._members.items():
-            if key == 'name':
-                continue
             typ = attr.type.name
             raw = attr._value if attr.is_array else [attr._value]
-            attrs.append([attr.name, typ, bool(attr.is_array), [_canon_value(typ, v, index_of) for v in raw]])
-        out.append({'type': el.type, 'name': el.name, 'uuid': el.uuid.hex, 'attrs': attrs})
+            if key == 'name':
+                if typ == 'ELEMENT':
+                    members = None       # not generated; the exporters never follow a reference held by the name member
+                elif members is not None:
+                    members.append([key, [attr.name, typ, bool(attr.is_array), [_canon_value(typ, v, index_of) for v in raw]]])
+                continue
+            rec = [attr.name, typ, bool(attr.is_array), [_canon_value(typ, v, index_of) for v in raw]]
+            attrs.append(rec)
+            keys.append(key)
+            if members is not None:
+                members.append([key, rec])
+        out.append({'type': el.type, 'name': el.name, 'uuid': el.uuid.hex, 'attrs': attrs, 'members': members, 'keys': keys})
     return {'elems': out, 'refs': refs}
 
 
@@ -159,7 +247,8 @@ def reachable_canon(spec: dict) -> dict:
         e = elems[order[i]]
         i += 1
         attrs = []
-        for name, typ, is_arr, vals in e['attrs']:
+        ename, has_name, members = effective(e)
+        for name, typ, is_arr, vals in (v for k, v in members if k != 'name'):
             nv = []
             for v in vals:
                 if typ == 'ELEMENT' and isinstance(v, int):
@@ -174,7 +263,9 @@ def reachable_canon(spec: dict) -> dict:
                 else:
                     nv.append(v)
             attrs.append([name, typ, is_arr, nv])
-        out.append({'type': e['type'], 'name': e['name'], 'uuid': e['uuid'], 'attrs': attrs})
+        out.append({'type': e['type'], 'name': ename, 'uuid': e['uuid'], 'attrs': attrs, 'has_name': has_name,
+                    'keys': [k for k, _ in members if k != 'name'],
+                    'name_pos': next((j for j, (k, _) in enumerate(members) if k == 'name'), None)})
     return {'elems': out, 'refs': refs}
 
 
@@ -209,10 +300,14 @@ def diff(a: dict, b: dict, text: bool, uuid_all: bool = True) -> str | None:
             return f'elem[{i}].uuid: {x["uuid"]} != {y["uuid"]}'
         if len(x['attrs']) != len(y['attrs']):
             return f'elem[{i}] attribute count {len(x["attrs"])} != {len(y["attrs"])} ({[t[0] for t in x["attrs"]]} vs {[t[0] for t in y["attrs"]]})'
-        for (n1, t1, a1, v1), (n2, t2, a2, v2) in zip(x['attrs'], y['attrs']):
+        kx, ky = x.get('keys'), y.get('keys')
+        for j, ((n1, t1, a1, v1), (n2, t2, a2, v2)) in enumerate(zip(x['attrs'], y['attrs'])):
             w = f'elem[{i}].attr[{n1!r}]'
             if n1 != n2:
                 return f'{w} name != {n2!r}'
+            if kx is not None and ky is not None and kx[j] != ky[j]:
+                # same record, but the mapping API (elem[name], `in`, del) does not find it under its name any more
+                return f'{w} key: stored under {ky[j]!r}, not under {kx[j]!r} (lookup by name fails)'
             if t1 != t2:
                 return f'{w} type {t1} != {t2}'
             if a1 != a2:
@@ -329,7 +424,78 @@ def rand_value(rng: random.Random, typ: str, n_elems: int, uni: bool, stub_pool:
     return [_rand_f32(rng) for _ in range(NFLOATS[typ])]
 
 
-def gen_spec(rng: random.Random, uni: bool, allow_time: bool = True, kv2: bool = False) -> dict:
+def _recase(rng: random.Random, name: str) -> str:
+    """Another spelling of the same mapping key (the API casefolds): only ASCII letters are changed."""
+    if rng.random() < 0.5:
+        return name
+    return ''.join((c.upper() if rng.random() < 0.5 else c.lower()) if c.isascii() else c for c in name)
+
+
+def gen_ops(rng: random.Random, attrs: list, n_elems: int, uni: bool, stub_pool: list, allow_time: bool) -> list:
+    """An API history for an element that already has `attrs`: removes and re-adds members through the public mapping
+    API, the 'name' member included (clear, del, pop, popitem down to it, re-adding it through the setter or by
+    assigning an attribute spelled in another case)."""
+    ops: list = []
+    keys = ['name'] + [a[0] for a in attrs]
+
+    def new_attr(nm=None):
+        nm = nm or rng.choice(NAME_POOL[:12] + ['after', 'z9'])
+        typ = rng.choice(['INTEGER', 'STRING', 'ELEMENT', 'FLOAT', 'BOOL', 'COLOR', 'BINARY', 'VEC3'] + (['TIME'] if allow_time else []))
+        is_arr = rng.random() < 0.3
+        vals = [rand_value(rng, typ, n_elems, uni, stub_pool) for _ in range(rng.choice([0, 1, 2]) if is_arr else 1)]
+        return [nm, typ, is_arr, vals]
+    shape = rng.random()
+    if shape < 0.3:          # everything removed, then filled again
+        ops.append(['clear'])
+        keys = []
+        for _ in range(rng.choice([0, 1, 1, 2, 3])):
+            a = new_attr()
+            if a[0].casefold() not in {k.casefold() for k in keys} | {'name'}:
+                ops.append(['set', *a])
+                keys.append(a[0])
+    elif shape < 0.6:        # only the name member removed
+        ops.append([rng.choice(['del', 'pop']), _recase(rng, 'name')])
+        keys.remove('name')
+    elif shape < 0.75:       # popitem from the end, possibly down to and including the name member
+        for _ in range(rng.randint(1, len(keys))):
+            ops.append(['popitem'])
+            keys.pop()
+    else:                    # ordinary attributes removed / replaced / added, name untouched so far
+        for _ in range(rng.randint(1, 3)):
+            r = rng.random()
+            others = [k for k in keys if k.casefold() != 'name']
+            if r < 0.4 and others:
+                k = rng.choice(others)
+                ops.append([rng.choice(['del', 'pop']), _recase(rng, k)])
+                keys.remove(k)
+            elif r < 0.6 and others:
+                ops.append(['set', *new_attr(rng.choice(others))])      # same key: keeps its position
+            elif r < 0.8:
+                a = new_attr()
+                ops.append([rng.choice(['set', 'setdefault']), *a])
+                if a[0].casefold() not in {k.casefold() for k in keys}:
+                    keys.append(a[0])
+            else:
+                ops.append(['pop', 'not-there'])
+    # afterwards: sometimes the name comes back (at the end of the dict when it was missing), sometimes more attributes
+    if rng.random() < 0.35:
+        r = rng.random()
+        if r < 0.4:
+            ops.append(['setname', _rand_str(rng, uni)])
+        elif r < 0.7:
+            ops.append(['set', rng.choice(['NAME', 'Name', 'name']), 'STRING', False, [_rand_str(rng, uni)]])
+        else:
+            ops.append(['setdefault', 'Name', 'STRING', False, [_rand_str(rng, uni)]])
+        if not any(k.casefold() == 'name' for k in keys):
+            keys.append('name')
+    if rng.random() < 0.4:
+        a = new_attr()
+        if a[0].casefold() not in {k.casefold() for k in keys} | {'name'}:
+            ops.append(['set', *a])
+    return ops
+
+
+def gen_spec(rng: random.Random, uni: bool, allow_time: bool = True, kv2: bool = False, histories: float = 0.0) -> dict:
     n = rng.choice([1, 1, 2, 2, 3, 4, 6])
     stub_pool = [uuidmod.UUID(int=rng.getrandbits(128), version=4).hex for _ in range(2)]
     elems = []
@@ -355,6 +521,11 @@ def gen_spec(rng: random.Random, uni: bool, allow_time: bool = True, kv2: bool =
             attrs.append([nm, typ, is_arr, vals])
         elems.append({'type': etype, 'name': ename,
                       'uuid': uuidmod.UUID(int=rng.getrandbits(128), version=4).hex, 'attrs': attrs})
+    if histories:
+        # drawn after the whole graph so that the graphs themselves are the ones drawn without histories
+        for e in elems:
+            if rng.random() < histories:
+                e['ops'] = gen_ops(rng, e['attrs'], n, uni, stub_pool, allow_time)
     return {'elems': elems}
 
 
@@ -372,7 +543,14 @@ def features(spec: dict) -> dict[str, int]:
     add(f'elements={min(len(c["elems"]), 6)}')
     if any(r > 1 for r in c['refs']):
         add('shared-or-cyclic')
+    for e in spec['elems']:
+        for op in e.get('ops', ()):
+            add('op:' + op[0])
     for i, e in enumerate(c['elems']):
+        if not e['has_name']:
+            add('no-name-member' + (':with-attributes' if e['attrs'] else ':empty'))
+        elif e['name_pos']:
+            add('name-member-not-first')
         for name, typ, is_arr, vals in e['attrs']:
             add(f'{typ}:{"array" if is_arr else "scalar"}' + (':empty' if is_arr and not vals else ''))
             if typ == 'ELEMENT':
@@ -386,19 +564,45 @@ def features(spec: dict) -> dict[str, int]:
     return f
 
 
+def payloads(e: dict) -> list:
+    """Every [name, TYPE, is_array, values] list an element of a spec mentions: its attributes and the attributes its
+    history assigns (shared with the spec: the values list can be replaced in place through `p[3]`)."""
+    class _View:
+        def __init__(self, op):
+            self.op = op
+        def __getitem__(self, i):
+            return self.op[i + 1]
+        def __setitem__(self, i, v):
+            self.op[i + 1] = v
+    return list(e['attrs']) + [_View(op) for op in e.get('ops', ()) if op[0] in ('set', 'setdefault')]
+
+
 # ------------------------------------------------------------------------------------------------ shrinking
 def _variants(spec: dict):
     """Smaller / simpler specs, most aggressive first."""
     import copy
     E = spec['elems']
+    # drop a step of an API history (last first), then a whole history
+    for i, e in enumerate(E):
+        ops = e.get('ops', [])
+        if len(ops) > 1:
+            s = copy.deepcopy(spec)
+            del s['elems'][i]['ops']
+            yield s
+        for j in range(len(ops) - 1, -1, -1):
+            s = copy.deepcopy(spec)
+            del s['elems'][i]['ops'][j]
+            if not s['elems'][i]['ops']:
+                del s['elems'][i]['ops']
+            yield s
     # drop a whole non-root element that nothing references
-    refd = {v for e in E for a in e['attrs'] if a[1] == 'ELEMENT' for v in a[3] if isinstance(v, int)}
+    refd = {v for e in E for a in payloads(e) if a[1] == 'ELEMENT' for v in a[3] if isinstance(v, int)}
     for i in range(len(E) - 1, 0, -1):
         if i not in refd:
             s = copy.deepcopy(spec)
             del s['elems'][i]
             for e in s['elems']:
-                for a in e['attrs']:
+                for a in payloads(e):
                     if a[1] == 'ELEMENT':
                         a[3] = [v - 1 if isinstance(v, int) and v > i else v for v in a[3]]
             yield s
@@ -409,10 +613,17 @@ def _variants(spec: dict):
         inv = {old: new for new, old in enumerate(perm)}
         s['elems'] = [s['elems'][k] for k in perm]
         for e in s['elems']:
-            for a in e['attrs']:
+            for a in payloads(e):
                 if a[1] == 'ELEMENT':
                     a[3] = [inv[v] if isinstance(v, int) else v for v in a[3]]
         yield s
+    # simplify the attribute a history assigns
+    for i, e in enumerate(E):
+        for j, op in enumerate(e.get('ops', ())):
+            if op[0] in ('set', 'setdefault') and op[2:] != ['INTEGER', False, [0]] and op[1].casefold() != 'name':
+                s = copy.deepcopy(spec)
+                s['elems'][i]['ops'][j][2:] = ['INTEGER', False, [0]]
+                yield s
     for i, e in enumerate(E):
         for j in range(len(e['attrs'])):
             s = copy.deepcopy(spec)
@@ -517,6 +728,10 @@ def classify(spec: dict) -> str:
             special.append('nonascii-element-name')
         elif NEEDS_ESCAPE & set(e['name']):
             special.append('element-name-needs-escape')
+        if not e['has_name']:
+            special.append('element-without-name-member')
+        elif e['name_pos']:
+            special.append('name-member-not-first')
         for name, typ, is_arr, vals in e['attrs']:
             shape = 'array' if is_arr else 'scalar'
             if NEEDS_ESCAPE & set(name):
@@ -535,6 +750,9 @@ def classify(spec: dict) -> str:
             elif (typ, is_arr, vals) != ('INTEGER', False, [0]):
                 values.append(f'{typ.lower()}-{shape}' + ('-empty' if is_arr and not vals else ''))
     special, values = sorted(set(special)), sorted(set(values))
+    if 'element-without-name-member' in special:       # the rarest class first: it names the failing history shape
+        special.remove('element-without-name-member')
+        special.insert(0, 'element-without-name-member')
     if special:
         return '|'.join(special[:2])
     if len(values) > 1:
